@@ -373,7 +373,7 @@ func (g *Gen) drawCfg() {
 	}
 	// a tenth of the runs with unusual values: most collections are big ones
 	cfg.BigValues = p.Unusual && r.Chance(0.1)
-	if p.NativeUpdaters && !cfg.FaultFree && r.Chance(0.15) {
+	if p.NativeUpdaters && !cfg.FaultFree && r.Chance(0.25) {
 		// native-heavy runs: activation and Go updaters early and often
 		cfg.Weights["native"] = 2
 	}
